@@ -318,4 +318,61 @@ theorem tryLoc_fuel_stable (s : PS) (hs : Sorted s.rest.length s.stk) :
     · rw [ih (by omega)]
       exact tryLoc_fuel m s.rest.length (by omega) s hs (Nat.le_refl _)
 
+/-! ### the list handed to `Join` / `Order` is never empty -/
+
+theorem more_nonempty (f : Nat) : ∀ k acc (s s' : PS) ls, acc ≠ [] →
+    (multiple.more f k acc).run' s = (.ok ls, s') → ls ≠ []
+  | 0, acc, s, s', ls, hacc, h => by
+    rw [multiple.more, run_pure] at h
+    injection h with h1 _
+    injection h1 with h1
+    subst h1
+    simpa using hacc
+  | k + 1, acc, s, s', ls, hacc, h => by
+    rw [multiple.more] at h
+    simp only [run_bind, run_delimiter] at h
+    by_cases hc : s.rest.head? = some 44
+    · simp only [hc, if_true, run_bind, run_attempt] at h
+      rcases hrun : (loc f).run' ⟨(s.rest.drop 1).dropWhile isSpace, s.stk⟩ with ⟨res, s2⟩
+      rw [hrun] at h
+      rcases res with e | v
+      · cases e
+        · simp only [run_bind, run_pop, run_fail] at h
+          cases hs2 : s2.stk <;> rw [hs2] at h <;> cases h
+        · cases h
+      · dsimp only at h
+        exact more_nonempty f k (v :: acc) s2 s' ls (by simp) h
+    · simp only [hc, if_false, Bool.false_eq_true, run_pure] at h
+      injection h with h1 _
+      injection h1 with h1
+      subst h1
+      simpa using hacc
+
+/-- `multipleLocationParser` returns at least one location: `Join(locs...)` / `Order(locs...)` in
+`parseJoin` / `parseOrder` are never called without arguments -/
+theorem multiple_nonempty (f : Nat) (s s' : PS) (ls : List Loc)
+    (h : (multiple f).run' s = (.ok ls, s')) : ls ≠ [] := by
+  cases f with
+  | zero => rw [multiple] at h; cases h
+  | succ f =>
+    rw [multiple] at h
+    simp only [run_bind, run_push, run_attempt] at h
+    rcases hrun : (loc f).run' ⟨s.rest, s.rest :: s.stk⟩ with ⟨res, s2⟩
+    rw [hrun] at h
+    rcases res with e | v
+    · cases e
+      · simp only [run_bind, run_pop, run_fail] at h
+        cases hs2 : s2.stk <;> rw [hs2] at h <;> cases h
+      · cases h
+    · simp only [run_pure] at h
+      rcases hm : (multiple.more f f [v]).run' s2 with ⟨res2, s3⟩
+      rw [hm] at h
+      rcases res2 with e | ls2
+      · cases h
+      · simp only [run_drop] at h
+        injection h with h1 _
+        injection h1 with h1
+        subst h1
+        exact more_nonempty f f [v] s2 s3 ls2 (by simp) hm
+
 end Gts.Pars
